@@ -1,6 +1,7 @@
 package rules
 
 import (
+	"go/constant"
 	"go/token"
 	"go/types"
 	"strings"
@@ -190,6 +191,7 @@ func (c *Ctx) ruleMapOrder(rule string, m *core.Module, fns map[*ssa.Function]bo
 			c.checkLoopAccumulation(rule, m, l, base, pos)
 			c.checkLoopCarriedReads(rule, m, l, base, pos)
 			c.checkConvertedKeyInsert(rule, m, l, base, pos)
+			c.checkLastWriter(rule, m, l, base, pos)
 		}
 	}
 }
@@ -1241,6 +1243,275 @@ func (c *Ctx) isDuplicateReject(l *mapLoop, lk *ssa.Lookup) bool {
 			if present == l.header || blockReaches(present, l.header, nil) {
 				return false
 			}
+			return true
+		}
+	}
+	return false
+}
+
+// ---- last writer wins -----------------------------------------------------------------------------------------------------
+
+// A variable that lives across the iterations of a map loop (a phi in the loop header) and is overwritten inside the
+// body with a value of the current iteration - not computed from its previous value - keeps whatever the LAST visited
+// matching entry put there: `for k, v := range m { if match(v) { found = &k } }`. With more than one matching entry the
+// result is the map's iteration order. Obligations: every such overwrite. Discharged when, on every path from the loop
+// header to the overwrite, a branch condition either
+//   - compares the loop's key with the variable by an order (<, >, <=, >=): a selection of the minimum / maximum key is
+//     independent of the visiting order because map keys are unique, or
+//   - establishes that the variable is still unset (nil) and the "already set" branch of that test leaves the loop
+//     (duplicates are rejected; "first one wins and the loop goes on" is as order dependent as "last one wins"),
+//
+// or when the map has at most one entry. Constants and loop-invariant values (found = true) are not overwrites of this
+// kind, accumulations (n = n + 1, s = append(s, k)) are the business of checkLoopAccumulation.
+func (c *Ctx) checkLastWriter(rule string, m *core.Module, l *mapLoop, base, pos string) {
+	if !l.hasBackEdge {
+		return
+	}
+	keys := loopKeys(l)
+	idx := 0
+	for _, in := range l.header.Instrs {
+		phi, ok := in.(*ssa.Phi)
+		if !ok {
+			continue
+		}
+		type writer struct {
+			v    ssa.Value
+			from *ssa.BasicBlock
+		}
+		var writers []writer
+		seen := map[*ssa.Phi]bool{phi: true}
+		var collect func(p *ssa.Phi, onlyBack bool)
+		collect = func(p *ssa.Phi, onlyBack bool) {
+			for i, e := range p.Edges {
+				pred := p.Block().Preds[i]
+				if onlyBack && !l.blocks[pred] {
+					continue
+				}
+				if e == ssa.Value(phi) {
+					continue
+				}
+				if inner, ok := e.(*ssa.Phi); ok && l.blocks[inner.Block()] {
+					if !seen[inner] {
+						seen[inner] = true
+						collect(inner, false)
+					}
+					continue
+				}
+				writers = append(writers, writer{e, pred})
+			}
+		}
+		collect(phi, true)
+		for _, w := range writers {
+			if _, isConst := w.v.(*ssa.Const); isConst {
+				continue
+			}
+			def, ok := w.v.(ssa.Instruction)
+			if !ok || !l.blocks[def.Block()] {
+				continue // loop invariant
+			}
+			if dependsOn(w.v, phi, l, 0) {
+				continue // computed from the previous value: an accumulation
+			}
+			idx++
+			k := key2(base, sprintf("loop-carried variable #%d overwritten with a value of the current entry", idx))
+			p := m.InstrPos(def)
+			if c.lenAtMostOne(m, l) {
+				c.R.Ok(rule, k, p, "overwrite of a loop-carried variable", "the map has at most one entry here")
+				continue
+			}
+			derived := func(v ssa.Value) bool {
+				for i := 0; i < 4; i++ {
+					if v == ssa.Value(phi) {
+						return true
+					}
+					switch x := v.(type) {
+					case *ssa.UnOp:
+						v = x.X
+					case *ssa.Convert:
+						v = x.X
+					case *ssa.ChangeType:
+						v = x.X
+					default:
+						return false
+					}
+				}
+				return false
+			}
+			isOrd := func(v ssa.Value) bool {
+				for {
+					u, ok := v.(*ssa.UnOp)
+					if !ok || u.Op != token.NOT {
+						break
+					}
+					v = u.X
+				}
+				bo, ok := v.(*ssa.BinOp)
+				if !ok {
+					return false
+				}
+				switch bo.Op {
+				case token.LSS, token.GTR, token.LEQ, token.GEQ:
+					return (derived(bo.X) && keys[bo.Y]) || (derived(bo.Y) && keys[bo.X])
+				}
+				return false
+			}
+			// the variable starts unset: its value on entry to the loop is the nil / zero constant
+			startsUnset := true
+			for i, e := range phi.Edges {
+				if l.blocks[phi.Block().Preds[i]] {
+					continue
+				}
+				cst, ok := e.(*ssa.Const)
+				if !ok || !(cst.IsNil() || cst.Value == nil || (cst.Value.Kind() == constant.Int && constant.Sign(cst.Value) == 0) || (cst.Value.Kind() == constant.String && constant.StringVal(cst.Value) == "")) {
+					startsUnset = false
+				}
+			}
+			usedOrd, usedUnset, usedEq := false, false, false
+			est := func(cond core.Cond) bool {
+				ifb := condBlock(cond)
+				if ifb == nil || !l.blocks[ifb] {
+					return false
+				}
+				if isOrd(cond.V) {
+					usedOrd = true
+					return true
+				}
+				if x, neq, ok := unsetCmp(cond.V); ok && startsUnset && derived(x) && cond.True != neq {
+					// the variable is unset on this edge; the already-set edge must leave the loop (duplicates rejected)
+					// or lead straight to the ordered comparison of an `unset || key < variable` disjunction
+					other := ifb.Succs[0]
+					if cond.True {
+						other = ifb.Succs[1]
+					}
+					leaves := other != l.header && !blockReaches(other, l.header, nil)
+					toOrd := false
+					if len(other.Instrs) > 0 {
+						if ifi, ok := other.Instrs[len(other.Instrs)-1].(*ssa.If); ok && isOrd(ifi.Cond) {
+							toOrd = true
+						}
+					}
+					// or to an equality test of the variable with the value it would have received, whose mismatch edge
+					// leaves the loop: "remember the first, require all others to be equal" ends with the same value
+					// whichever entry came first
+					toEq := false
+					if len(other.Instrs) > 0 {
+						if ifi, ok := other.Instrs[len(other.Instrs)-1].(*ssa.If); ok {
+							if bo, ok := ifi.Cond.(*ssa.BinOp); ok && (bo.Op == token.NEQ || bo.Op == token.EQL) &&
+								((derived(bo.X) && bo.Y == w.v) || (derived(bo.Y) && bo.X == w.v)) {
+								mismatch := other.Succs[0]
+								if bo.Op == token.EQL {
+									mismatch = other.Succs[1]
+								}
+								if mismatch != l.header && !blockReaches(mismatch, l.header, nil) {
+									toEq = true
+								}
+							}
+						}
+					}
+					if toEq {
+						usedEq = true
+					}
+					if leaves || toOrd || toEq {
+						usedUnset = true
+						return true
+					}
+				}
+				return false
+			}
+			holds := core.MustHold(l.fn, est)[w.from]
+			ordered := holds && usedOrd
+			anyUnset, unsetRejects := usedUnset, true
+			switch {
+			case holds && ordered:
+				c.R.Ok(rule, k, p, "overwrite of a loop-carried variable", "on every path to the overwrite the variable is unset or the loop's key is compared with it by an order: the minimum / maximum key is selected, whatever the visiting order")
+			case holds && usedEq:
+				c.R.Ok(rule, k, p, "overwrite of a loop-carried variable", "set once while unset; every later entry is compared with it for equality and a mismatch leaves the loop: all entries agree on the value, whichever came first")
+			case holds && anyUnset && unsetRejects:
+				c.R.Ok(rule, k, p, "overwrite of a loop-carried variable", "only reached while the variable is unset, and the already-set branch leaves the loop: a second matching entry is rejected")
+			default:
+				c.R.Bad(rule, k, p, "a variable that outlives the iteration is overwritten with a value of the current map entry",
+					"when several entries satisfy the condition the one visited last (or first) wins: the result depends on the map's iteration order and differs between runs")
+			}
+		}
+	}
+}
+
+// unsetCmp decodes `x == nil` / `x != nil` and `x == 0` / `x != 0` (zero value of a basic type): tests of a variable
+// against its initial, unset value.
+func unsetCmp(v ssa.Value) (x ssa.Value, neq bool, ok bool) {
+	if x, neq, ok := core.NilCmp(v); ok {
+		return x, neq, true
+	}
+	bo, isBin := v.(*ssa.BinOp)
+	if !isBin || (bo.Op != token.EQL && bo.Op != token.NEQ) {
+		return nil, false, false
+	}
+	isZero := func(v ssa.Value) bool {
+		c, ok := v.(*ssa.Const)
+		if !ok || c.Value == nil {
+			return false
+		}
+		switch c.Value.Kind() {
+		case constant.Int:
+			n, exact := constant.Int64Val(c.Value)
+			return exact && n == 0
+		case constant.String:
+			return constant.StringVal(c.Value) == ""
+		}
+		return false
+	}
+	switch {
+	case isZero(bo.Y):
+		return bo.X, bo.Op == token.NEQ, true
+	case isZero(bo.X):
+		return bo.Y, bo.Op == token.NEQ, true
+	}
+	return nil, false, false
+}
+
+// condBlock: the block whose If carries the condition.
+func condBlock(cond core.Cond) *ssa.BasicBlock {
+	if cond.V.Referrers() == nil {
+		return nil
+	}
+	for _, r := range *cond.V.Referrers() {
+		if ifi, ok := r.(*ssa.If); ok {
+			return ifi.Block()
+		}
+	}
+	// negated condition: the If refers to the UnOp NOT of it
+	for _, r := range *cond.V.Referrers() {
+		if u, ok := r.(*ssa.UnOp); ok && u.Op == token.NOT && u.Referrers() != nil {
+			for _, r2 := range *u.Referrers() {
+				if ifi, ok := r2.(*ssa.If); ok {
+					return ifi.Block()
+				}
+			}
+		}
+	}
+	return nil
+}
+
+// dependsOn: v is computed (within the loop) from target.
+func dependsOn(v ssa.Value, target ssa.Value, l *mapLoop, depth int) bool {
+	if v == target {
+		return true
+	}
+	if depth > 6 {
+		return false
+	}
+	in, ok := v.(ssa.Instruction)
+	if !ok || !l.blocks[in.Block()] {
+		return false
+	}
+	if _, isPhi := v.(*ssa.Phi); isPhi && depth > 0 {
+		// inner merges are followed, the header's own phis are not
+		if in.Block() == l.header {
+			return false
+		}
+	}
+	for _, op := range in.Operands(nil) {
+		if *op != nil && dependsOn(*op, target, l, depth+1) {
 			return true
 		}
 	}
